@@ -76,6 +76,10 @@ STORABLE_GHOST = '''
     spec fn spec_handle(&self) -> Option<Self::HandleType>;
     spec fn spec_id(&self) -> Option<Seq<char>>;
     spec fn spec_carries_id() -> bool;
+    /// ghost: the two items agree on everything but handle and public id (what binding / id generation must keep)
+    spec fn same_content(&self, other: &Self) -> bool;
+    proof fn same_content_refl(a: Self) ensures a.same_content(&a);
+    proof fn same_content_trans(a: Self, b: Self, c: Self) requires a.same_content(&b), b.same_content(&c), ensures a.same_content(&c);
 '''
 
 STOREFOR_GHOST = '''
@@ -93,8 +97,9 @@ STOREFOR_GHOST = '''
     spec fn preinsert_ok(rest: Self::Rest, item: T) -> bool;
     spec fn inserted_ok(rest: Self::Rest, item: T) -> bool;
     /// ghost: implementation specific postconditions of the callbacks (what they do to the reverse indices)
-    spec fn inserted_post(pre: Self, post: Self, handle: T::HandleType, ok: bool) -> bool;
-    spec fn preremove_post(pre: Self, post: Self, handle: T::HandleType, ok: bool) -> bool;
+    /// (stated over the ghost views so that the generic insert / remove can pass them on to their callers)
+    spec fn inserted_post(store: Seq<Option<T>>, pre_rest: Self::Rest, post_rest: Self::Rest, handle: T::HandleType, ok: bool) -> bool;
+    spec fn preremove_post(pre_store: Seq<Option<T>>, pre_rest: Self::Rest, post_store: Seq<Option<T>>, post_rest: Self::Rest, handle: T::HandleType, ok: bool) -> bool;
     /// ghost: preremove(handle) succeeds in this state
     spec fn preremove_ok(s: Self, handle_idx: usize) -> bool;
 '''
@@ -221,9 +226,9 @@ pub open spec fn temp_letter(t: Type) -> char {
         Fn('carries_id', props=P, ret='r', ensures=[('ghost', 'r == Self::spec_carries_id()')]),
         Fn('with_handle', props=P, ret='r', decl_only=True,
            sig_rewrites=[('R-decl', r'\b_handle\b', 'handle')],
-           ensures=[('handle', 'r.spec_handle() == Some(handle)'), ('id', 'r.spec_id() == self.spec_id()')]),
+           ensures=[('handle', 'r.spec_handle() == Some(handle)'), ('id', 'r.spec_id() == self.spec_id()'), ('content', 'self.same_content(&r)')]),
         Fn('generate_id', props=P, ret='r', decl_only=True, sig_rewrites=[('R-decl', r'\s*where\s*Self: Sized,', '')],
-           ensures=[('handle', 'r.spec_handle() == self.spec_handle()')]),
+           ensures=[('handle', 'r.spec_handle() == self.spec_handle()'), ('content', 'self.same_content(&r)')]),
         Fn('merge', props=P, ret='r', requires=[('same_id', 'other.spec_id() == old(self).spec_id()')], ensures=[('identity', 'final(self).spec_handle() == old(self).spec_handle() && final(self).spec_id() == old(self).spec_id()')]),
     ], verus_header='pub trait Storable: PartialEq + TypeInfo + Sized',
         extra='    type HandleType: Handle;\n' + STORABLE_GHOST)
@@ -233,12 +238,12 @@ pub open spec fn temp_letter(t: Type) -> char {
     UNCHANGED = 'final(self).view_store() == old(self).view_store() && final(self).view_idmap() == old(self).view_idmap() && final(self).view_temp_ids() == old(self).view_temp_ids() && final(self).view_config() == old(self).view_config()'
     callbacks = [
         Fn('preinsert', props=P, ret='r', decl_only=True,
-           ensures=[('item_identity', 'final(item).spec_handle() == old(item).spec_handle() && final(item).spec_id() == old(item).spec_id()'),
+           ensures=[('item_identity', 'final(item).spec_handle() == old(item).spec_handle() && final(item).spec_id() == old(item).spec_id() && old(item).same_content(final(item))'),
                     ('ok_if', 'Self::preinsert_ok(self.view_rest(), *old(item)) ==> r is Ok')]),
         Fn('inserted', props=P, ret='r', decl_only=True,
            requires=[('live', 'live(old(self).view_store(), handle.idx() as int)')],
            ensures=[('frame', UNCHANGED),
-                    ('post', 'Self::inserted_post(*old(self), *final(self), handle, r is Ok)'),
+                    ('post', 'Self::inserted_post(old(self).view_store(), old(self).view_rest(), final(self).view_rest(), handle, r is Ok)'),
                     ('ok_if', 'Self::inserted_ok(old(self).view_rest(), old(self).view_store()[handle.idx() as int].unwrap()) ==> r is Ok')]),
         Fn('preremove', props=P, ret='r', decl_only=True,
            requires=[('wf', 'idmap_wf(old(self).view_store(), old(self).view_idmap())')],
@@ -249,7 +254,7 @@ pub open spec fn temp_letter(t: Type) -> char {
                     ('keeps_target', 'r is Ok && live(old(self).view_store(), handle.idx() as int) ==> final(self).view_store()[handle.idx() as int] == old(self).view_store()[handle.idx() as int]'),
                     ('config', 'final(self).view_temp_ids() == old(self).view_temp_ids() && final(self).view_config() == old(self).view_config()'),
                     ('ok_iff', 'r is Ok <==> Self::preremove_ok(*old(self), handle.idx())'),
-                    ('post', 'Self::preremove_post(*old(self), *final(self), handle, r is Ok)'),
+                    ('post', 'Self::preremove_post(old(self).view_store(), old(self).view_rest(), final(self).view_store(), final(self).view_rest(), handle, r is Ok)'),
                     ('no_cascade', 'Self::cascade_free() ==> final(self).view_store() == old(self).view_store() && final(self).view_idmap() == old(self).view_idmap()')]),
     ]
     return callbacks
@@ -299,7 +304,7 @@ def emit_storefor(u, P):
                 ('item', f'r is Ok ==> *r->Ok_0 == old(self).view_store()[{t}.unwrap() as int].unwrap()'),
                 ('writes_back', f'r is Ok ==> final(self).view_store() == old(self).view_store().update({t}.unwrap() as int, Some(*final(r->Ok_0)))'),
                 ('err_frame', 'r is Err ==> final(self).view_store() == old(self).view_store()'),
-                ('frame', 'final(self).view_idmap() == old(self).view_idmap() && final(self).view_temp_ids() == old(self).view_temp_ids() && final(self).view_config() == old(self).view_config()')]
+                ('frame', 'final(self).view_idmap() == old(self).view_idmap() && final(self).view_temp_ids() == old(self).view_temp_ids() && final(self).view_config() == old(self).view_config() && final(self).view_rest() == old(self).view_rest()')]
 
     def remove_ens(suffix):
         t = target(suffix).replace('self.', 'old(self).')
@@ -311,6 +316,7 @@ def emit_storefor(u, P):
                 ('idmap_sub', 'old(self).view_idmap() is Some ==> final(self).view_idmap() is Some && final(self).view_idmap().unwrap().submap_of(old(self).view_idmap().unwrap())'),
                 ('exact', f'''r is Ok && Self::cascade_free() ==> final(self).view_store() == old(self).view_store().update({t}.unwrap() as int, None)
                       && (old(self).view_idmap() is Some ==> final(self).view_idmap() == Some(match old(self).view_store()[{t}.unwrap() as int].unwrap().spec_id() {{ Some(id) => old(self).view_idmap().unwrap().remove(id), None => old(self).view_idmap().unwrap() }}))'''),
+                ('callback', f'r is Ok && Self::cascade_free() ==> forall|h: T::HandleType| h.idx() == {t}.unwrap() ==> #[trigger] Self::preremove_post(old(self).view_store(), old(self).view_rest(), old(self).view_store(), final(self).view_rest(), h, true)'),
                 ('succeeds', f'(Self::cascade_free() && {t} is Some && live(old(self).view_store(), {t}.unwrap() as int) && Self::preremove_ok(*old(self), {t}.unwrap())) ==> r is Ok')]
 
     fns = [
@@ -338,6 +344,7 @@ def emit_storefor(u, P):
            ensures=[('next', 'r.idx() == self.view_store().len()')]),
     ] + req_variants('has', ensures_fn=has_ens) + req_variants('get', ensures_fn=get_ens) \
       + req_variants('get_mut', ensures_fn=get_mut_ens) + req_variants('remove', ensures_fn=remove_ens, requires=[('wf', 'idmap_wf(old(self).view_store(), old(self).view_idmap())')],
+                                                                        after=[('*item = None;', 'proof { assert forall|h: T::HandleType| h.idx() == handle.idx() && Self::cascade_free() implies #[trigger] Self::preremove_post(old(self).view_store(), old(self).view_rest(), old(self).view_store(), self.view_rest(), h, true) by { T::HandleType::idx_injective(h, handle); } }', None, 'callback')],
                                                                         rewrites=[('R-outline', r'item\.id\(\)\.map\(\|x\| x\.to_string\(\)\)', 'vx_owned(item.id())')])
     # ------------------------------------------------------------------ insert
     OLD = 'old(self).view_store()'
@@ -352,7 +359,14 @@ def emit_storefor(u, P):
                             ('R-request', r'self\.get_mut\(id\)', 'self.get_mut__str(id)'),
                             ('R-closure-inline', r'self\.idmap_mut\(\)\.map\(\|idmap\| \{(.*?)\}\);', r'if let Some(idmap) = self.idmap_mut() {\1; }'),
                             ('R-asserteq', r'assert_eq!\(handle, T::HandleType::new\(self\.store\(\)\.len\(\) - 1\), "[^"]*"\);', 'vx_assert_eq_handle(handle, T::HandleType::new(self.store().len() - 1));')],
-                  after=[('item = item.with_handle(self.next_handle());', 'proof { T::HandleType::idx_injective(intid, item.spec_handle().unwrap()); }')],
+                  prologue='let ghost vx_item0 = item; proof { T::same_content_refl(item); }',
+                  before=[('item = item.with_handle(self.next_handle());', 'let ghost vx_a = item;'),
+                          ('item = item.generate_id(self.idmap_mut());', 'let ghost vx_b = item;'),
+                          ('self.preinsert(&mut item)?;', 'let ghost vx_c = item;')],
+                  after=[('item = item.with_handle(self.next_handle());', 'proof { T::HandleType::idx_injective(intid, item.spec_handle().unwrap()); }'),
+                         ('item = item.with_handle(self.next_handle());', 'proof { T::same_content_trans(vx_item0, vx_a, item); }', None, 'content'),
+                         ('item = item.generate_id(self.idmap_mut());', 'proof { T::same_content_trans(vx_item0, vx_b, item); }', None, 'content'),
+                         ('self.preinsert(&mut item)?;', 'proof { T::same_content_trans(vx_item0, vx_c, item); }', None, 'content')],
                   requires=[('wf', f'idmap_wf({OLD}, {OLDM})'),
                             ('fits', f'{OLD}.len() < T::HandleType::hmax()'),
                             ('unbound_or_next', f'item.spec_handle() is None || item.spec_handle().unwrap().idx() == {OLD}.len()'),
@@ -363,6 +377,9 @@ def emit_storefor(u, P):
                       ('appends', f'r is Ok && !{DUP} ==> r->Ok_0.idx() == {OLD}.len() && final(self).view_store().len() == {OLD}.len() + 1 && final(self).view_store().take({OLD}.len() as int) =~= {OLD} && final(self).view_store().last() is Some && final(self).view_store().last().unwrap().spec_handle() == Some(r->Ok_0)'),
                       ('keeps_id', f'r is Ok && !{DUP} && !{GEN} ==> final(self).view_store().last().unwrap().spec_id() == item.spec_id()'),
                       ('idmap', f'r is Ok && !{DUP} && !{GEN} ==> (final(self).view_idmap() is Some <==> {OLDM} is Some) && ({OLDM} is Some ==> final(self).view_idmap().unwrap() =~= (if T::spec_carries_id() && item.spec_id() is Some {{ {OLDM}.unwrap().insert(item.spec_id().unwrap(), r->Ok_0) }} else {{ {OLDM}.unwrap() }}))'),
+                      ('content', f'r is Ok && !{DUP} ==> item.same_content(&final(self).view_store().last().unwrap())'),
+                      ('dup_rest', f'{DUP} ==> final(self).view_rest() == old(self).view_rest()'),
+                      ('callback', f'r is Ok && !{DUP} ==> Self::inserted_post(final(self).view_store(), old(self).view_rest(), final(self).view_rest(), r->Ok_0, true)'),
                       ('wf', f'r is Ok && !{DUP} && !{GEN} && (!T::spec_carries_id() ==> item.spec_id() is None) && (item.spec_id() is Some ==> !is_temp_form::<T>(old(self).view_temp_ids(), item.spec_id().unwrap())) ==> idmap_wf(final(self).view_store(), final(self).view_idmap())'),
                   ]))
     u.impl(ST, 'pub trait StoreFor<T: Storable>: Configurable + private::StoreCallbacks<T>', fns,
